@@ -488,11 +488,14 @@ impl Check for C15Text {
         let sep = opts.items_sep.clone().unwrap_or_else(|| "\t".into());
         let mut exp = String::new();
         let mut exp_alt = String::new(); // header cells written as plain names (not specified which)
+        let mut exp_alt2 = String::new(); // ... or with prefix/postfix but without escape sequences
         if opts.headers {
             exp.push_str(&case.names.iter().map(|n| text_string(n, opts)).collect::<Vec<_>>().join(&sep));
             exp.push_str(&case.rowsep);
             exp_alt.push_str(&case.names.join(&sep));
             exp_alt.push_str(&case.rowsep);
+            exp_alt2.push_str(&case.names.iter().map(|n| format!("{}{}{}", opts.prefix.as_deref().unwrap_or(""), n, opts.postfix.as_deref().unwrap_or(""))).collect::<Vec<_>>().join(&sep));
+            exp_alt2.push_str(&case.rowsep);
         }
         for r in &case.rows {
             let line = r.iter().map(|c| text_cell(c, opts)).collect::<Vec<_>>().join(&sep);
@@ -500,8 +503,10 @@ impl Check for C15Text {
             exp.push_str(&case.rowsep);
             exp_alt.push_str(&line);
             exp_alt.push_str(&case.rowsep);
+            exp_alt2.push_str(&line);
+            exp_alt2.push_str(&case.rowsep);
         }
-        if o.stdout != exp.as_bytes() && o.stdout != exp_alt.as_bytes() {
+        if o.stdout != exp.as_bytes() && o.stdout != exp_alt.as_bytes() && o.stdout != exp_alt2.as_bytes() {
             return CaseResult::Fail(format!("text output differs from the rows the options describe: expected {} got {} (args {:?})", esc_trunc(exp.as_bytes(), 500), esc_trunc(&o.stdout, 500), args));
         }
         let (_, quote, absent, nested) = nontrivial(case);
